@@ -544,7 +544,7 @@ func init() {
 	core.Register(&core.Prop{
 		ID:    "C08",
 		Title: "Iterators are cursors over positions -1..n of the container's sequence",
-		Cases: func(tier string) int { return tierN(tier, 9000, 360000) },
+		Cases: func(tier string) int { return tierN(tier, 36000, 720000) },
 		Run:   runC08,
 		Rule: "cases 0..35: deterministic sweep per iterator type (18 types, two seeds): every n <= 6, every position -1..n reached by two routes, every operation (Next/Prev/Begin/End/First/Last and NextTo/PrevTo with five predicates), followed by reversal steps; " +
 			"other cases: a container of the type in a state reached by a random history (n in {0,1,2,3,4..70}, wrapped rings, trees after removals, B-tree orders 3..8), three fresh iterators each driven by 40-200 random calls with extra reversals at both sentinels. " +
